@@ -246,7 +246,18 @@ func c18ManagementAfterRefusedReload(c *vlib.Ctx) {
 						return
 					}
 					if pd.edit != nil {
-						_ = a.WriteConfig(pd.edit(next))
+						pending := pd.edit(next)
+						// every other trial the file on disk has CRLF line ends (or a lone CR and a
+						// BOM): the bytes put back after a failed mutation are the bytes read
+						switch c.Counter("management_mutation_trials") % 4 {
+						case 1:
+							pending = strings.ReplaceAll(pending, "\n", "\r\n")
+							c.Count("management_mutation_trials_on_crlf_files", 1)
+						case 3:
+							pending = "\xef\xbb\xbf" + strings.Replace(pending, "\n", "\r", 1)
+							c.Count("management_mutation_trials_on_crlf_files", 1)
+						}
+						_ = a.WriteConfig(pending)
 						if a.Reload() {
 							c.Violation(vlib.Signature{"class": "invalid_reload_applied", "failure": pd.name}, "reload of a file that needs a restart or is invalid reported success", map[string]any{"old": old, "pending": pd.edit(next)})
 						}
@@ -796,13 +807,14 @@ func c18Mixture(c *vlib.Ctx) {
 
 // C18: configuration changes apply atomically or not at all.
 func C18(c *vlib.Ctx) {
-	c.Rule("(a) 9 injected reload failures (syntax error, compile error, file removed / replaced by a directory / dangling symlink, env secret unset, file secret missing, listener change, backend change) x old/candidate configuration pairs through the production reload path: a behaviour fingerprint of 13 probes (ingress status + stored route/target, pull token decisions, admin token decision) must be identical before and after; a later valid reload must behave like a fresh start; trend_signals / adaptive_backpressure edits reloaded with a warm admission cache on a backlog whose trend separates them: the next requests are admitted or refused as by a fresh start of the file in force. (b) configuration pairs built so that mixtures are observable (authenticated / size-limited route removed, authenticated route added under a catch-all): requests are classified old / new / neither while the reload goroutine is parked between its swaps (writer window), while a request is parked right after route resolution (reader window), and free-running with 16 request goroutines (-race). (c) the real `hookaido mcp serve` and `hookaido run` children are SIGKILLed at every named point of the file replacement and at injected syscall indices (strace): the config file must hash to the complete old or new content and compile; trace specification write(tmp) -> fsync(tmp) -> rename -> fsync(dir), never O_TRUNC on the path; write_and_reload without a running instance must restore the previous bytes; after every named crash point and every second injected one the next two rewrites (a shorter, then a longer file) must put exactly their content at the config path whatever the killed writer left behind. The temporary file of the trace specification is whatever is renamed over the config path (any name). distinct_nontrivial = distinct (failure kind, pair) / (pair, window, classification) / (writer, crash point) classes.")
+	c.Rule("(a) 9 injected reload failures (syntax error, compile error, file removed / replaced by a directory / dangling symlink, env secret unset, file secret missing, listener change, backend change) x old/candidate configuration pairs through the production reload path: a behaviour fingerprint of 13 probes (ingress status + stored route/target, pull token decisions, admin token decision) must be identical before and after; a later valid reload must behave like a fresh start; trend_signals / adaptive_backpressure edits reloaded with a warm admission cache on a backlog whose trend separates them: the next requests are admitted or refused as by a fresh start of the file in force; management mutations that rewrite the file and then fail in their reload (secret become unloadable) on files with LF / CRLF / BOM / lone CR / mixed line ends: the previous bytes are back, the fingerprint unchanged. (b) configuration pairs built so that mixtures are observable (authenticated / size-limited route removed, authenticated route added under a catch-all): requests are classified old / new / neither while the reload goroutine is parked between its swaps (writer window), while a request is parked right after route resolution (reader window), and free-running with 16 request goroutines (-race). (c) the real `hookaido mcp serve` and `hookaido run` children are SIGKILLed at every named point of the file replacement and at injected syscall indices (strace): the config file must hash to the complete old or new content and compile; trace specification write(tmp) -> fsync(tmp) -> rename -> fsync(dir), never O_TRUNC on the path; write_and_reload without a running instance must restore the previous bytes; after every named crash point and every second injected one the next two rewrites (a shorter, then a longer file) must put exactly their content at the config path whatever the killed writer left behind. The temporary file of the trace specification is whatever is renamed over the config path (any name). distinct_nontrivial = distinct (failure kind, pair) / (pair, window, classification) / (writer, crash point) classes.")
 	c.Assume("'cannot be read' is produced with a removed file, a directory and a dangling symlink (the harness runs as root, so permission bits are ignored)")
 	c.Assume("rate windows are not part of the fingerprint (a reload re-arms the buckets, as the statement of C12 notes)")
 	c18FailedReload(c)
 	c18ManagementAfterRefusedReload(c)
 	c18SettingEdits(c)
 	c18TrendReload(c)
+	c18MgmtRollbackBytes(c)
 	c18SecretRotation(c)
 	deliverEdits(c)
 	if c.Counter("management_mutations_applied") == 0 || c.Counter("management_mutations_refused") == 0 {
